@@ -156,6 +156,8 @@ def shard_task(args):
         module = importlib.import_module('vfw.props.' + pid)
         part = next(p for p in module.PARTS if p.name == part_name)
         known = known_map(pid)
+        if part.fuzz_of is not None:
+            return (part_name, shard, run_fuzz(pid, part, seed, shard))
         if part.enumerate is not None:
             try:
                 for case in part.enumerate(tier, shard, nshards):
@@ -167,6 +169,43 @@ def shard_task(args):
     except Exception:  # pylint: disable=broad-except
         stats.harness_error = traceback.format_exc()
     return (part_name, shard, stats.as_dict())
+
+
+def run_fuzz(pid, part, seed, shard):
+    """atheris campaign in a subprocess (fresh corpus, removed afterwards);
+    returns the statistics dict the driver wrote."""
+    import shutil
+    import subprocess
+    import tempfile
+    empty = ShardStats().as_dict()
+    if not os.path.isdir(os.path.join(VERIF_DIR, '.deps', 'atheris')):
+        subprocess.call(['sh', os.path.join(VERIF_DIR, 'setup.sh')],
+                        stdout=subprocess.DEVNULL, stderr=subprocess.DEVNULL)
+    if not os.path.isdir(os.path.join(VERIF_DIR, '.deps', 'atheris')):
+        empty['labels'] = {'atheris-unavailable': 1}
+        return empty
+    scratch = tempfile.mkdtemp(
+        prefix='vfw-fuzz-',
+        dir='/dev/shm' if os.path.isdir('/dev/shm') else None)
+    stats_path = os.path.join(scratch, 'stats.json')
+    try:
+        subprocess.run(
+            [sys.executable,
+             os.path.join(VERIF_DIR, 'vfw', 'fuzz_driver.py'), pid,
+             part.fuzz_of, stats_path, str(part.fuzz_runs),
+             str(seed * 1000 + shard + 1), os.path.join(scratch, 'corpus')],
+            stdout=subprocess.DEVNULL, stderr=subprocess.DEVNULL,
+            env=dict(os.environ, PYTHONHASHSEED='0'), check=False)
+        if os.path.exists(stats_path):
+            with open(stats_path) as f:
+                result = json.load(f)
+            if result.get('violation'):
+                result['violation']['part'] = part.fuzz_of
+            return result
+        empty['harness_error'] = 'fuzz driver wrote no statistics'
+        return empty
+    finally:
+        shutil.rmtree(scratch, ignore_errors=True)
 
 
 def _run_hypothesis(part, tier, seed, shard, stats, known):
